@@ -281,7 +281,7 @@ static void run_uncaught_program(int kind_expected) {
   pid_t pid = fork();
   if (pid == 0) {
     close(tp[0]); close(ep[0]);
-    alarm(2);
+    alarm(25);
     dup2(ep[1], 2);
     g_trace_fd = tp[1];
     t_self = 0;
